@@ -376,6 +376,10 @@ import (
 //@   ensures[empty-value] val == "" ==> !result
 //@   ensures[whitespace-in-value] !ignoreCase && exists(k, 0, len(val), (&spaceAsciiSet).contains(val[k])) ==> !result
 //@   loop 1 decreases len(s)
+// every word, the last (or only) one included, is compared with the value under the same rule:
+// ASCII case-insensitively iff the selector carries the `i` flag (Selectors 4 §6.3)
+//@   return 2 ensures[last-word] result == ite(ignoreCase, strings.EqualFold(s, val), s == val)
+//@   return 3 ensures[word] ite(ignoreCase, strings.EqualFold(s[:i], val), s[:i] == val)
 
 // :nth-child(an+b) and friends, a != 0: the 1-based index matches iff index = a*k + b for some k >= 0
 // (i holds index - b at the final return)
